@@ -276,7 +276,7 @@ func main() {
 		}
 	}
 	vrt.Main([]*vrt.Scenario{
-		scenario("hooktask1", one, vrt.Bounds{Dev: 0, Seconds: 100}, vrt.Bounds{Dev: 1, Seconds: 900}),
-		scenario("hooktask2", two, vrt.Bounds{Dev: 0, Seconds: 100}, vrt.Bounds{Dev: 1, Seconds: 900}),
+		scenario("hooktask1", one, vrt.Bounds{Dev: 0, Seconds: 100}, vrt.Bounds{Dev: 1, Seconds: 500}),
+		scenario("hooktask2", two, vrt.Bounds{Dev: 0, Seconds: 100}, vrt.Bounds{Dev: 1, Seconds: 500}),
 	})
 }
